@@ -101,6 +101,20 @@ func (m xMatch) yaml() string {
 			v = "!!regex " + jstr("^"+e.vm.s)
 		case "glob-sw": // glob equivalent to a prefix test
 			v = "!!glob " + jstr(e.vm.s+"*")
+		// the other literal forms: an anchored literal is an equality test, a bare literal a substring test (Go's
+		// regexp is unanchored), a literal before `$` / after `*` a suffix test
+		case "rx-eq":
+			v = "!!regex " + jstr("^"+e.vm.s+"$")
+		case "rx-ew":
+			v = "!!regex " + jstr(e.vm.s+"$")
+		case "rx-ct":
+			v = "!!regex " + jstr(e.vm.s)
+		case "glob-eq":
+			v = "!!glob " + jstr(e.vm.s)
+		case "glob-ew":
+			v = "!!glob " + jstr("*"+e.vm.s)
+		case "glob-ct":
+			v = "!!glob " + jstr("*"+e.vm.s+"*")
 		}
 		parts = append(parts, fmt.Sprintf("%s: %s", fname(e.field), v))
 	}
@@ -114,15 +128,15 @@ func (m xMatch) toks() []string {
 		switch e.vm.kind {
 		case "any":
 			t = append(t, "any")
-		case "eq", "eqd":
+		case "eq", "eqd", "rx-eq", "glob-eq":
 			t = append(t, "eq:"+hx([]byte(e.vm.s)))
 		case "ne":
 			t = append(t, "ne:"+hx([]byte(e.vm.s)))
 		case "sw", "rx-sw", "glob-sw":
 			t = append(t, "sw:"+hx([]byte(e.vm.s)))
-		case "ew":
+		case "ew", "rx-ew", "glob-ew":
 			t = append(t, "ew:"+hx([]byte(e.vm.s)))
-		case "ct":
+		case "ct", "rx-ct", "glob-ct":
 			t = append(t, "ct:"+hx([]byte(e.vm.s)))
 		case "gt":
 			t = append(t, fmt.Sprintf("gt:%d", e.vm.n))
@@ -447,9 +461,10 @@ func xGenMatch(rng *rand.Rand) xMatch {
 			continue
 		}
 		used[f] = true
-		kinds := []string{"any", "eq", "eqd", "ne", "sw", "ew", "ct", "gt", "lt", "rx-sw", "glob-sw"}
+		kinds := []string{"any", "eq", "eqd", "ne", "sw", "ew", "ct", "gt", "lt", "rx-sw", "glob-sw",
+			"rx-eq", "rx-ew", "rx-ct", "glob-eq", "glob-ew", "glob-ct"}
 		vm := xVM{kind: kinds[rng.Intn(len(kinds))], s: xConsts[rng.Intn(8)], n: rng.Intn(12)}
-		if vm.kind == "rx-sw" || vm.kind == "glob-sw" {
+		if strings.HasPrefix(vm.kind, "rx-") || strings.HasPrefix(vm.kind, "glob-") {
 			vm.s = []string{"a", "ab", "err", "web"}[rng.Intn(4)] // no regex / glob metacharacters
 		}
 		m = append(m, struct {
